@@ -10,7 +10,7 @@ import os
 import re
 
 from . import common, bvals, bval_spec, trees, javaexpr
-from .common import AnalysisBroken, enum_name, string_value, const_value
+from .common import AnalysisBroken, enum_name, string_value, const_value, strip, walk, calls
 from .c04_builtins import canon, load_frozen
 from . import c16_mangle
 from .trees import show, has_opaque
@@ -30,6 +30,8 @@ EXPLANATION = (
     "J6: the Java identifier mangling table gjSpecCharIdTable is injective and uniquely decodable (same rule as C16-M1). "
     "J7: in genjava.c and javacode.c the value of every call that returns a JavaCode/JavaCodeList (the jc* constructors and the "
     "gj0* generators) is used or explicitly cast to void: a fragment that is built and dropped changes the emitted program. "
+    "J8: the precedence column of the binary-operator rows of jcClss orders every pair of operators as the Java grammar does, and "
+    "the right operand of a binary operator is parenthesised at equal precedence (not only at lower). "
     "Not decided: behaviour of generated classes; builtins beyond the table's end are 'not implemented in Java'.")
 
 JAVA_CAST_CLASS = {"int": "i64", "char": "char", "byte": "u8", "short": "i16", "float": "f32", "double": "f64", "long": "i64"}
@@ -109,6 +111,53 @@ def j7(rep):
         if not sites:
             rep.ok("J7", "no-dropped-fragment:" + short, sample={"calls returning JavaCode/JavaCodeList examined": n})
     rep.floor("calls returning a Java fragment", total, 1000)
+
+
+def j8(rep):
+    """Parenthesisation of generated Java expressions is sound."""
+    from . import prectab
+    f = common.extract("java/javacode.c", trees=["jcBinOpPrint", "jc0NeedsParens", "jc0PrintWithParens", "jcUnaryOpPrint"])
+    rec = f.records.get("jclss")
+    if rec is None:
+        raise AnalysisBroken("struct jclss not found in javacode.c")
+    fields = [x[0] for x in rec["f"]]
+    rows = []
+    for r in common.table_rows(f.var("jcClss")):
+        g = dict(zip(fields, r["c"]))
+        pf = strip(g.get("writer") or r["c"][1])
+        if pf is not None and pf.get("n") == "jcBinOpPrint":
+            strs = [string_value(x) for x in r["c"] if x is not None and string_value(x) is not None]
+            nums = [const_value(x) for x in r["c"][4:] if x is not None and const_value(x) is not None]
+            if len(strs) >= 2 and nums:
+                rows.append((enum_name(r["c"][0]), strs[1], nums[0]))
+    bad, n = prectab.inconsistent_pairs(rows)
+    rep.floor("binary operator classes in the Java class table", n, 15)
+    badset = set()
+    for n1, s1, p1, n2, s2, p2 in bad:
+        badset.add((n1, n2))
+        rep.violation("J8", "precedence:%s~%s" % (n1, n2), "javacode.c (jcClss %s / %s)" % (n1, n2),
+                      "`%s` has precedence %d and `%s` has %d in the class table, which orders them differently from the Java grammar: "
+                      "an operand that needs parentheses is printed without them (or the reverse)" % (s1, p1, s2, p2))
+    if not bad:
+        rep.ok("J8", "precedence-table-follows-grammar", sample={"operators": len(rows)})
+    # the right operand of a left-associative operator needs parentheses at equal precedence: a - (b - c)
+    fn = f.func("jcBinOpPrint")
+    cs = [c for c in calls(fn["body"]) if c.get("callee") in ("jc0PrintWithParens", "jc0PrintWithParensRhs", "jc0PrintOperand")]
+    if len(cs) != 2:
+        raise AnalysisBroken("jcBinOpPrint: expected two operand-printing calls, found %d" % len(cs))
+    np = f.func("jc0NeedsParens")
+    strict_only = not any(x["k"] == "BinaryOperator" and x["op"] in (">=", "<=", "==") and
+                          all(y is not None and y["k"] == "MemberExpr" and y.get("n") == "prec" for y in (strip(x["c"][0]), strip(x["c"][1])))
+                          for x in walk(np["body"]))
+    # accepted form: the right operand's call carries a flag that is true for left-associative operators
+    rhs_flag = len(cs[1]["c"]) >= 5 and "JCO_LR" in common.render(cs[1]["c"][-1]) and "==" in common.render(cs[1]["c"][-1])
+    same_call = not rhs_flag
+    if same_call and strict_only:
+        rep.violation("J8", "right-operand-equal-precedence", "javacode.c:%d (jcBinOpPrint / jc0NeedsParens)" % fn["l"],
+                      "both operands are parenthesised by the same test `outer precedence > operand precedence`: a right operand of equal "
+                      "precedence is printed bare, so a - (b - c) becomes a - b - c and a / (b * c) becomes a / b * c")
+    else:
+        rep.ok("J8", "right-operand-equal-precedence")
 
 
 def run(tier, only=None):
@@ -416,4 +465,5 @@ def run(tier, only=None):
     rep.assumptions += ["Java's int carries FOAM SInt by design: word-size dependent limits are compared by kind, not value",
                         "java.lang/java.math methods mean what their javadoc says (table JAVA_METHOD_MEANS)"]
     j7(rep)
+    j8(rep)
     return rep
